@@ -10,7 +10,8 @@ DESCRIBE_NS = "/temporal.api.workflowservice.v1.WorkflowService/DescribeNamespac
 
 
 def bimap_lines(rng, n):
-    lines = ["B -", "B 1:2", "B 1:2,1:3", "B 1:2,3:2", "B 1:2,2:3", "B 1:2,2:1", "B 1:1", "B 1:2,2:3,3:1", "B 1:2,3:4,1:4"]
+    lines = ["B -", "B 1:2", "B 1:2,1:3", "B 1:2,3:2", "B 1:2,2:3", "B 1:2,2:1", "B 1:1", "B 1:2,2:3,3:1", "B 1:2,3:4,1:4",
+             "B 1:1,2:1", "B 1:1,1:2", "B 2:1,1:1", "B 1:1,2:2", "B 1:1,2:2,3:1", "B 3:3,3:3"]
     for _ in range(n):
         k = rng.range(1, 6)
         pairs = ["%d:%d" % (rng.range(1, 6), rng.range(1, 6)) for _ in range(k)]
@@ -45,8 +46,23 @@ def check(tier, seed):
                 problems.append(("bimap", {"kind": "bimap", "line": l, "impl": bi[i]}, "NewStaticBiMap %s -> %s" % (l, bi[i])))
         if bad and not problems:
             problems.append(("corr", {"kind": "unproved", "broken": ["correspondence BiMap.new_bimap <-> collect.NewStaticBiMap"], "line": bl[bad[0]], "impl": bi[bad[0]], "model": bm[bad[0]]}, None))
+        # the configuration layer in front of it (StringTranslator.AsLocalToRemoteBiMap) must behave the same
+        errc, bc = L.run_impl("config", ["zz_verif_strtrans_test.go"], "TestVerifStringTranslator", bl, "c13c")
+        if errc:
+            ck.obligation("configuration-layer bimap run", False, errc)
+        else:
+            badc = [i for i in range(len(bl)) if bc[i] != bm[i]]
+            ck.obligation("config.StringTranslator.AsLocalToRemoteBiMap = model on the same %d mapping lists" % len(bl), not badc,
+                          "; ".join("%s -> %s (model %s)" % (bl[i], bc[i], bm[i]) for i in badc[:3]))
+            for i, l in enumerate(bl):
+                ps = [] if l.split()[1:] in ([], ["-"]) else [p.split(":") for p in l.split()[1].split(",")]
+                one_to_one = len({p[0] for p in ps}) == len(ps) and len({p[1] for p in ps}) == len(ps)
+                if (bc[i] != "B err") != one_to_one:
+                    problems.append(("bimap", {"kind": "strtrans", "line": l, "impl": bc[i]}, "a mapping list that is %sone-to-one was %s by the configuration layer: %s -> %s" % ("" if one_to_one else "not ", "rejected" if one_to_one else "accepted", l, bc[i])))
+            if badc and not [p for p in problems if p[0] == "bimap"]:
+                problems.append(("corr", {"kind": "unproved", "broken": ["correspondence BiMap.new_bimap <-> config.StringTranslator.AsLocalToRemoteBiMap"], "line": bl[badc[0]], "impl": bc[badc[0]], "model": bm[badc[0]]}, None))
     # (b) walkers: nothing but mapped names / keys changes; round trip
-    cases = 3 if tier == "quick" else 40
+    cases = 6 if tier == "quick" else 40
     total = 0
     for mode, kinds in (("ns", ("NS", "NSRT")), ("sa", ("SA",))):
         err, diffs, stats = W.run(mode, seed, cases)
@@ -117,6 +133,12 @@ def replay(data):
         bad = bool(out) and data.get("want", "") not in out[-1]
         print("REPRODUCED" if bad else "not reproduced on the current tree")
         return 1 if bad else 0
+    if data.get("kind") == "strtrans":
+        err, out = L.run_impl("config", ["zz_verif_strtrans_test.go"], "TestVerifStringTranslator", [data["line"]], "c13r")
+        print(err or out)
+        ps = [] if data["line"].split()[1:] in ([], ["-"]) else [p.split(":") for p in data["line"].split()[1].split(",")]
+        one_to_one = len({p[0] for p in ps}) == len(ps) and len({p[1] for p in ps}) == len(ps)
+        return 1 if err or ((out[0] != "B err") != one_to_one) else 0
     if data.get("kind") == "bimap":
         err, out = L.run_impl("collect", ["zz_verif_bimap_test.go"], "TestVerifBimap", [data["line"]], "c13r")
         print(data["line"], "->", out)
